@@ -2,6 +2,7 @@ package main
 
 import (
 	"fmt"
+	"os"
 	"go/token"
 	"go/types"
 	"sort"
@@ -176,6 +177,21 @@ func (f *Frame) scanCall(c *ssa.CallCommon, li *loopInfo, depth int) {
 		}
 		if len(ct.Fresh) > 0 || len(ct.FreshObjs) > 0 {
 			li.allocs = true
+			// the heaps in which the callee allocates its fresh results
+			sig := c.Signature()
+			if c.IsInvoke() {
+				sig = c.Method.Type().(*types.Signature)
+			}
+			for i := 0; i < sig.Results().Len(); i++ {
+				switch u := sig.Results().At(i).Type().Underlying().(type) {
+				case *types.Pointer:
+					li.heaps[f.heapOfPointee(u.Elem())] = true
+				case *types.Map:
+					li.heaps[ex.S.heapForMap(u)] = true
+				case *types.Slice:
+					li.heaps[ex.S.heapForSliceElem(u.Elem())] = true
+				}
+			}
 		}
 		for _, fo := range ct.FreshObjs {
 			li.heaps[fo.Heap] = true
@@ -404,6 +420,20 @@ func (f *Frame) invEnv(li *loopInfo, phiVal func(*ssa.Phi) Val, st *State, vis m
 		if t, ok := f.ghostAtom(a); ok {
 			return t, true
 		}
+		if strings.HasPrefix(a, "$wme@") {
+			// allocation watermark at the entry of loop N: objects allocated by that loop (or later) lie below it
+			for _, oli := range f.loops {
+				if fmt.Sprint(oli.ordinal) == a[5:] {
+					if oli.entryWM == "" {
+						ex.fail("%s: %s used before loop %s was entered", f.key, a, a[5:])
+						return a, true
+					}
+					return oli.entryWM, true
+				}
+			}
+			ex.fail("%s: no loop %s", f.key, a)
+			return a, true
+		}
 		if (strings.HasPrefix(a, "$i@") || strings.HasPrefix(a, "$k@")) && len(a) > 3 {
 			// range index of an enclosing loop, by ordinal
 			for _, oli := range f.loops {
@@ -452,6 +482,19 @@ func (f *Frame) invEnv(li *loopInfo, phiVal func(*ssa.Phi) Val, st *State, vis m
 			return a, true
 		case "$pc":
 			return f.pc, true
+		case "$wm":
+			// allocation watermark: every object of this activation has an address >= $wm (addresses decrease)
+			return useSt.wm, true
+		}
+		if strings.HasPrefix(a, "$p.") {
+			// the function's parameter of that name (entry value), even when a loop variable shadows it
+			for _, p := range f.fn.Params {
+				if p.Name() == a[3:] {
+					return f.val(p).T, true
+				}
+			}
+			ex.fail("%s: no parameter %s", f.key, a[3:])
+			return a, true
 		}
 		if strings.HasPrefix(a, "$") {
 			return "", false
@@ -510,6 +553,9 @@ func (f *Frame) loopClauses(li *loopInfo) []*Clause {
 func (f *Frame) enterLoop(li *loopInfo, back map[[2]*ssa.BasicBlock]bool) {
 	ex := f.ex
 	h := li.head
+	if os.Getenv("GOVC_DEBUG") != "" {
+		fmt.Fprintf(os.Stderr, "enterLoop %s ordinal %d block %d pos %d\n", f.key, li.ordinal, h.Index, loopPos(h))
+	}
 	var entryPreds []*ssa.BasicBlock
 	for _, p := range h.Preds {
 		if !back[[2]*ssa.BasicBlock{p, h}] {
@@ -564,6 +610,7 @@ func (f *Frame) enterLoop(li *loopInfo, back map[[2]*ssa.BasicBlock]bool) {
 	}
 	clauses := f.loopClauses(li)
 	auto := f.autoInvariants(li)
+	li.entryWM = f.st.wm
 	// inv_init
 	envInit := f.invEnv(li, func(p *ssa.Phi) Val { return entryPhi[p] }, f.st, initVis)
 	for _, c := range clauses {
@@ -638,6 +685,27 @@ func (f *Frame) enterLoop(li *loopInfo, back map[[2]*ssa.BasicBlock]bool) {
 			}
 		}
 	}
+	li.rangeObj = nil
+	if li.allocs || li.all {
+		nw := ex.decl(f.pfx+"wm.lh", "Int")
+		ex.assume("(<= " + nw + " " + f.st.wm + ")")
+		var rh []string
+		if li.all {
+			for h := range ex.S.heaps {
+				rh = append(rh, h)
+			}
+		} else {
+			for h := range li.heaps {
+				rh = append(rh, h)
+			}
+		}
+		sort.Strings(rh)
+		ex.nrange++
+		li.rangeObj = &freshObj{id: 1000000 + ex.nrange, isRange: true, lo: nw, hi: f.st.wm, rheaps: rh}
+		li.rangeObj.inner = provSet{li.rangeObj: {}}
+		f.st.wm = nw
+	}
+	var refCells []cellKey
 	cellSet := map[cellKey]bool{}
 	for c := range li.cells {
 		cellSet[cellKey{c, f}] = true
@@ -652,11 +720,17 @@ func (f *Frame) enterLoop(li *loopInfo, back map[[2]*ssa.BasicBlock]bool) {
 		nv := f.havocVal(elem, f.pfx+"lc."+c.Comment)
 		nv.Prov = old.Prov.union(f.loopProv(li))
 		f.st.cells[k] = nv
+		refCells = append(refCells, k)
 	}
-	if li.allocs || li.all {
-		nw := ex.decl(f.pfx+"wm.lh", "Int")
-		ex.assume("(<= " + nw + " " + f.st.wm + ")")
-		f.st.wm = nw
+
+	for _, k := range refCells {
+		v := f.st.cells[k]
+		switch k.a.Type().(*types.Pointer).Elem().Underlying().(type) {
+		case *types.Slice:
+			ex.assume("(>= (Slice.ptr " + v.T + ") " + f.st.wm + ")")
+		case *types.Map, *types.Pointer:
+			ex.assume("(>= " + v.T + " " + f.st.wm + ")")
+		}
 	}
 	headPhi := map[*ssa.Phi]Val{}
 	for _, in := range h.Instrs {
@@ -681,6 +755,13 @@ func (f *Frame) enterLoop(li *loopInfo, back map[[2]*ssa.BasicBlock]bool) {
 			case *types.Map, *types.Pointer:
 				ex.assume("(<= " + v.T + " 0)")
 			}
+		}
+		// whatever a loop-carried reference points to was allocated before this iteration's allocations
+		switch p.Type().Underlying().(type) {
+		case *types.Slice:
+			ex.assume("(>= (Slice.ptr " + v.T + ") " + f.st.wm + ")")
+		case *types.Map, *types.Pointer:
+			ex.assume("(>= " + v.T + " " + f.st.wm + ")")
 		}
 		headPhi[p] = v
 		f.regs[p] = v
@@ -727,7 +808,12 @@ func (f *Frame) enterLoop(li *loopInfo, back map[[2]*ssa.BasicBlock]bool) {
 }
 
 // loopProv: provenance that values carried around the loop may acquire (objects allocated in the loop).
-func (f *Frame) loopProv(li *loopInfo) provSet { return nil }
+func (f *Frame) loopProv(li *loopInfo) provSet {
+	if li.rangeObj == nil {
+		return nil
+	}
+	return provSet{li.rangeObj: {}}
+}
 
 func (f *Frame) autoInvariants(li *loopInfo) []*SX {
 	var out []*SX
